@@ -80,6 +80,12 @@ def struct_cases(thorough):
             for same in ((False, True) if n > 1 else (False,)):
                 shapes.append(Shape(0, n, named, same))
     shapes.append(Shape(0, 2, True, False, names=["r#type", "r#fn"]))
+    # wide shapes (plain round trip only): two-digit positions, names whose declaration order is not their alphabetical order
+    wide = [Shape(0, 12, False, False), Shape(0, 11, False, True), Shape(0, 12, True, False, names=["width", "height", "z9", "z10", "b", "a", "_2", "_10", "r#type", "r#as", "Z", "y"]),
+            Shape(0, 3, True, True, names=["width", "height", "depth"])]
+    for sh in wide:
+        sh.wide = True
+    shapes += wide
     for sh in shapes:
         n = sh.n
         F = [sh.fty(i) for i in range(n)]
@@ -111,7 +117,7 @@ pub fn run(r: &mut R) {
                  'r.eq("from(into(x)) == x", S::from(<%s>::from(%s)), %s);' % (ft, full, full),
                  'r.eq("no From::from call is needed for the plain forms", calls(), 0);']
         mk("plain", [], {}, ["Constructor", "From", "Into"], lines, impls={"From": 1, "Into": 1, "Constructor": 1})
-        if n == 0:
+        if n == 0 or getattr(sh, "wide", False):
             continue
         # From forward / types; Into types
         gv = tup([sh.gval(i) for i in range(n)])
